@@ -8,6 +8,7 @@ package storage
 import (
 	"os"
 	"path"
+	"sync"
 	"time"
 
 	log "github.com/sirupsen/logrus"
@@ -25,6 +26,10 @@ const (
 // Store implements a storage for Bundles together with meta data.
 type Store struct {
 	bh *badgerhold.Store
+
+	// bhWrite serialises the writing badgerhold transactions. Two of them which overlap in time fail with a
+	// "Transaction Conflict" even for different bundles, because they touch the same index keys.
+	bhWrite sync.Mutex
 
 	badgerDir string
 	bundleDir string
@@ -82,6 +87,8 @@ func (s *Store) Push(b bpv7.Bundle) error {
 		}
 
 		simHook("push.insert", bi.Id)
+		s.bhWrite.Lock()
+		defer s.bhWrite.Unlock()
 		return s.bh.Insert(bi.Id, bi)
 	} else if bi.Fragmented {
 		if !biStore.Fragmented {
@@ -117,6 +124,8 @@ func (s *Store) Push(b bpv7.Bundle) error {
 
 			biStore.Parts = append(biStore.Parts, compPart)
 			simHook("push.update", biStore.Id)
+			s.bhWrite.Lock()
+			defer s.bhWrite.Unlock()
 			return s.bh.Update(biStore.Id, biStore)
 		}
 	} else {
@@ -135,6 +144,8 @@ func (s *Store) Update(bi BundleItem) error {
 	}).Debug("Store updates BundleItem")
 
 	simHook("update", bi.Id)
+	s.bhWrite.Lock()
+	defer s.bhWrite.Unlock()
 	return s.bh.Update(bi.Id, bi)
 }
 
@@ -158,6 +169,8 @@ func (s *Store) Delete(bid bpv7.BundleID) error {
 		}
 
 		simHook("delete.index", bi.Id)
+		s.bhWrite.Lock()
+		defer s.bhWrite.Unlock()
 		return s.bh.Delete(bi.Id, BundleItem{})
 	}
 
